@@ -12,6 +12,7 @@ import (
 	"net/http"
 	"net/http/httptest"
 	"regexp"
+	"runtime"
 	"strconv"
 	"strings"
 	"sync"
@@ -537,8 +538,9 @@ func headBytes(r Resp, seq int) []byte {
 
 // laneWorker writes the responses of one connection (conn level). Its name is
 // looked for in goroutine dumps.
-func laneWorker(w *world, wc *wconn, rs []Resp, seqs []int, out *[]*obs, done chan<- struct{}) {
+func laneWorker(w *world, wc *wconn, rs []Resp, seqs []int, out *[]*obs, id *int64, done chan<- struct{}) {
 	defer close(done)
+	atomic.StoreInt64(id, gid())
 	for i, r := range rs {
 		o := &obs{wc: wc, r: r, seq: seqs[i], url: urlFor(r.Pat, seqs[i]), start: r.Start}
 		head := headBytes(r, seqs[i])
@@ -592,23 +594,55 @@ func laneWorker(w *world, wc *wconn, rs []Resp, seqs []int, out *[]*obs, done ch
 	}
 }
 
-var laneRe = regexp.MustCompile(`c18\.(laneWorker|posterWorker)`)
-var lockWaitRe = regexp.MustCompile(`(?m)^goroutine \d+ \[(sync\.|semacquire)`)
+var gidRe = regexp.MustCompile(`^goroutine (\d+) \[([^\]]*)\]`)
 
-// lockedUp reports whether every unfinished worker waits for a lock: nobody
-// is left who could release one.
-func lockedUp(unfinished int) (bool, string) {
-	dump := kit.GoroutineDump(laneRe)
-	blocks := strings.Split(dump, "\n\n")
-	waiting := 0
-	for _, b := range blocks {
-		// blocked inside RWMutex.Lock/RLock: those are the shape locks (a
-		// throttled writer spinning on a full bucket is not waiting for them)
-		if lockWaitRe.MatchString(b) && strings.Contains(b, "sync.(*RWMutex).") {
-			waiting++
+// gid is the id of the calling goroutine.
+func gid() int64 {
+	buf := make([]byte, 64)
+	buf = buf[:runtime.Stack(buf, false)]
+	if m := gidRe.FindSubmatch(buf); m != nil {
+		n, _ := strconv.ParseInt(string(m[1]), 10, 64)
+		return n
+	}
+	return -1
+}
+
+// lockedUp reports whether every one of the given (unfinished) goroutines is
+// blocked inside RWMutex.Lock/RLock - the shape locks - so that nobody is left
+// who could release one. A throttled writer spinning on a full bucket, a
+// sleeping halt or a socket write are not lock waits.
+func lockedUp(ids []int64) (bool, string) {
+	buf := make([]byte, 1<<20)
+	for {
+		n := runtime.Stack(buf, true)
+		if n < len(buf) {
+			buf = buf[:n]
+			break
+		}
+		buf = make([]byte, 2*len(buf))
+	}
+	blocks := map[int64]string{}
+	for _, b := range strings.Split(string(buf), "\n\n") {
+		if m := gidRe.FindStringSubmatch(b); m != nil {
+			n, _ := strconv.ParseInt(m[1], 10, 64)
+			blocks[n] = b
 		}
 	}
-	return unfinished > 0 && waiting >= unfinished && len(blocks) == waiting, dump
+	var dump []string
+	all := len(ids) > 0
+	for _, id := range ids {
+		b, ok := blocks[id]
+		if !ok {
+			all = false
+			continue
+		}
+		dump = append(dump, b)
+		m := gidRe.FindStringSubmatch(b)
+		if !(strings.HasPrefix(m[2], "sync.") || strings.HasPrefix(m[2], "semacquire")) || !strings.Contains(b, "sync.(*RWMutex).") {
+			all = false
+		}
+	}
+	return all, strings.Join(dump, "\n\n")
 }
 
 // runLanes runs the lanes concurrently and waits for them.
@@ -616,6 +650,7 @@ func lockedUp(unfinished int) (bool, string) {
 func (w *world) runLanes(lanes []Lane, extra time.Duration, poster func(stop <-chan struct{})) (res [][]*obs, verdict, detail string) {
 	res = make([][]*obs, len(lanes))
 	dones := make([]chan struct{}, 0, len(lanes)+1)
+	ids := make([]*int64, 0, len(lanes)+1)
 	for i, ln := range lanes {
 		wc := w.conns[ln.Conn]
 		if wc == nil || wc.dead {
@@ -628,24 +663,29 @@ func (w *world) runLanes(lanes []Lane, extra time.Duration, poster func(stop <-c
 		}
 		d := make(chan struct{})
 		dones = append(dones, d)
-		go laneWorker(w, wc, ln.Rs, seqs, &res[i], d)
+		id := new(int64)
+		ids = append(ids, id)
+		go laneWorker(w, wc, ln.Rs, seqs, &res[i], id, d)
 	}
 	stop := make(chan struct{})
 	var pd chan struct{}
+	pid := new(int64)
 	if poster != nil {
 		pd = make(chan struct{})
-		go func() { defer close(pd); poster(stop) }()
+		go func() { defer close(pd); atomic.StoreInt64(pid, gid()); poster(stop) }()
 	}
 	deadline := time.Now().Add(w.T + extra)
 	last, still := int64(-1), 0
 	lanesDone := false
 	for {
 		unfinished := 0
-		for _, d := range dones {
+		var busy []int64
+		for i, d := range dones {
 			select {
 			case <-d:
 			default:
 				unfinished++
+				busy = append(busy, atomic.LoadInt64(ids[i]))
 			}
 		}
 		if unfinished == 0 && !lanesDone {
@@ -658,6 +698,7 @@ func (w *world) runLanes(lanes []Lane, extra time.Duration, poster func(stop <-c
 			case <-pd:
 			default:
 				posterBusy = 1
+				busy = append(busy, atomic.LoadInt64(pid))
 			}
 		}
 		if unfinished == 0 && posterBusy == 0 {
@@ -670,7 +711,7 @@ func (w *world) runLanes(lanes []Lane, extra time.Duration, poster func(stop <-c
 			last, still = p, 0
 		}
 		if still >= 4 {
-			if ok, dump := lockedUp(unfinished + posterBusy); ok {
+			if ok, dump := lockedUp(busy); ok {
 				if !lanesDone {
 					close(stop)
 				}
@@ -681,7 +722,7 @@ func (w *world) runLanes(lanes []Lane, extra time.Duration, poster func(stop <-c
 			if !lanesDone {
 				close(stop)
 			}
-			_, dump := lockedUp(unfinished + posterBusy)
+			_, dump := lockedUp(busy)
 			return res, "stuck", dump
 		}
 		time.Sleep(25 * time.Millisecond)
